@@ -309,6 +309,7 @@ input::
       new is True."""
         from mystic.monitors import Null, Monitor#, CustomMonitor
         if monitor is None: monitor = Null()
+        previous = self._evalmon
         current = Null() if new else self._evalmon
         if current is monitor: current = Null()
         if isinstance(monitor, (Null, Monitor) ):  # is Monitor() or Null()
@@ -322,6 +323,8 @@ input::
                 self._evalmon = monitor #FIXME: need .prepend(current)
         else:
             raise TypeError("'%s' is not a monitor instance" % monitor)
+        if self._evalmon is not previous: # rebind the cost to the new monitor
+            self._update_objective()
         return
 
     def SetStrictRanges(self, min=None, max=None, **kwds):
